@@ -1,6 +1,7 @@
 package rules
 
 import (
+	"go/token"
 	"strings"
 
 	"golang.org/x/tools/go/ssa"
@@ -14,7 +15,7 @@ func init() {
 }
 
 func runC08(p *core.Prog, r *core.Report) {
-	r.Explain = "Decides the engine-level structure that makes a rejected tombstone harmless, on all CFG paths of StorageEngine.broadcastObject (used for TOMBSTONE, LOCK and LINK): (R1) a shard is recorded as having accepted the object only after putToShard returned nil or 'already exists'; (R2) the broadcast is declared fatal exactly for the verdicts {lock of a non-regular object, object is locked, already removed}, and a fatal verdict ends the loop; (R3) after a fatal verdict the object is deleted again from EVERY shard recorded as having accepted it (the rollback loop ranges over the whole list and addresses the broadcast object itself), and (R3) success is reported only when the broadcast was not fatal and at least one shard accepted. (R4, shared with C19) evacuation accounts for every listed object whatever its type, so a lock stored only on the drained shard moves with the object it protects. (R5, shared with C07/C01) the per-shard lock lookup ends its search only at a live lock, so with several locks an expired one cannot hide a live one from the tombstone verdict. (R6, shared with C07) the engine-wide lock check used by expired objects handling leaves its walk over the shards early only with 'locked', so a shard that cannot answer does not hide a lock known to another shard. The rest of the per-shard protection (a tombstone is refused while a live lock exists; GC and expiry respect locks) is decided by C07. Observation, not a rule and not a finding for this property: the rollback removes the tombstone object but not the garbage marks it had written for its targets on that shard — confirmed with a scratch scenario (lock missed one shard, tombstone accepted there, rejected elsewhere, rolled back: the shard keeps 'marked as garbage' for the locked object); in every history tried the locked object stayed retrievable through the engine, so no violation of this property could be shown and nothing is recorded. Not covered: shard visiting orders, mode flips, evacuation, concurrent broadcasts."
+	r.Explain = "Decides the engine-level structure that makes a rejected tombstone harmless, on all CFG paths of StorageEngine.broadcastObject (used for TOMBSTONE, LOCK and LINK): (R1) a shard is recorded as having accepted the object only after putToShard returned nil or 'already exists'; (R2) the broadcast is declared fatal exactly for the verdicts {lock of a non-regular object, object is locked, already removed}, and a fatal verdict ends the loop; (R3) after a fatal verdict the object is deleted again from EVERY shard recorded as having accepted it (the rollback loop ranges over the whole list and addresses the broadcast object itself), and (R3) success is reported only when the broadcast was not fatal and at least one shard accepted. (R4, shared with C19) evacuation accounts for every listed object whatever its type, so a lock stored only on the drained shard moves with the object it protects. (R5, shared with C07/C01) the per-shard lock lookup ends its search only at a live lock, so with several locks an expired one cannot hide a live one from the tombstone verdict. (R6, shared with C07) the engine-wide lock check used by expired objects handling leaves its walk over the shards early only with 'locked', so a shard that cannot answer does not hide a lock known to another shard. The rest of the per-shard protection (a tombstone is refused while a live lock exists; GC and expiry respect locks) is decided by C07. The leftover target marks after a rollback were first only an observation (no failing history had been found); a later history loses the locked object, see R8 and the known finding. Not covered: shard visiting orders, mode flips, evacuation, concurrent broadcasts."
 	bo := p.Func(engT + "broadcastObject")
 	if bo == nil {
 		r.Fatalf("C08: broadcastObject not found")
@@ -192,4 +193,46 @@ func runC08(p *core.Prog, r *core.Report) {
 	// R6: the engine-wide lock check asks every shard (shared with C07.R6)
 	r6 := r.Rule("C08.R6", "StorageEngine.isLocked says 'no lock' only after every shard was asked: a shard that cannot answer (mode change, error) does not end the walk", 1)
 	lockCheckAsksEveryShard(p, r, r6)
+	// R7: each shard refuses a tombstone for an object it knows to be locked, before writing anything (shared with C07.R1)
+	r7 := r.Rule("C08.R7", "on every shard the tombstone branch of the put path writes garbage marks and counts the tombstone only after objectLocked(the tombstone's own target)==false — asked about the target itself, not only about the parts collected for it (a size-split root has no record of its own: its parts carry no lock) — so a locked object's shard answers 'locked', which is what makes the broadcast fatal (R2) and rolled back (R3)", 6)
+	stTomb, ok3 := p.ConstInt(mb + "statusTombstoned")
+	if !ok3 {
+		r.Fatalf("C08.R7: statusTombstoned not found")
+		return
+	}
+	tombstoneRefusedWhileLocked(p, r, r7, tLock, stTomb)
+	r.Explain += " (R7, shared with C07.R1) the per-shard refusal the broadcast relies on."
+	// R8: the rollback undoes what the rejected object wrote, not only the object itself
+	r8 := r.Rule("C08.R8", "rollback completeness: a TOMBSTONE that some shard accepted and the broadcast then rolled back leaves nothing behind on that shard — the garbage marks its put wrote for its targets are removed again (by the removal the rollback calls, or by a dedicated undo): otherwise a shard that missed the lock keeps the locked object marked and GC removes it although every tombstone attempt was refused", 1)
+	undone := false
+	why := "the rollback calls the plain Shard.Delete, and deleteMetadata never looks at what the removed object was associated with"
+	// (a) a dedicated undo in the rollback loop
+	for _, cs := range core.CallSites([]*ssa.Function{bo}, func(s core.Site) bool { return strings.Contains(s.Name, "shard.Shard).") }) {
+		in := cs.Call.(ssa.Instruction)
+		if !inCycle(in.Block()) {
+			continue
+		}
+		n := cs.Name[strings.LastIndex(cs.Name, ".")+1:]
+		if n != "Delete" && n != "ID" && n != "Put" && n != "Exists" && (strings.Contains(strings.ToLower(n), "undo") || strings.Contains(strings.ToLower(n), "rollback") || strings.Contains(strings.ToLower(n), "revert")) {
+			undone = true
+		}
+	}
+	// (b) or the removal itself handles the association of the removed object
+	if dm := p.Func(mb + "deleteMetadata"); dm != nil && !undone {
+		for _, b := range dm.Blocks {
+			for _, in := range b.Instrs {
+				bo2, ok := in.(*ssa.BinOp)
+				if !ok || bo2.Op != token.EQL {
+					continue
+				}
+				for _, v := range []ssa.Value{bo2.X, bo2.Y} {
+					if c, isC := v.(*ssa.Const); isC && c.Value != nil && strings.Contains(c.Value.ExactString(), "__NEOFS__ASSOCIATE") {
+						undone = true
+					}
+				}
+			}
+		}
+	}
+	r8.Check(undone, core.FuncName(bo)+"#rollback!marks-of-the-rejected-tombstone-undone", p.Pos(bo.Pos()), "the rollback undoes the rejected tombstone's marks", why+": the target keeps its garbage mark on the shard that accepted the tombstone")
+	r.Explain += " (R8) what the rollback removes is compared with what the rejected put wrote; on the current tree the target's garbage mark survives the rollback (known finding, with a history that loses a locked object)."
 }
